@@ -9,7 +9,7 @@ from .. import dagsweep as D
 from .. import sweepprops as S
 
 LEVEL = 'proof'
-NEEDS = ['InstrumentsGen', 'SFIdentify', 'Extracted', 'SourceFacts', 'Base', 'Digraph', 'DigraphProofs', 'Identify', 'IdentifyProofs', 'DSep', 'DSepProofs', 'CorrDag']
+NEEDS = ['PyRt', 'IdentifyGenLemmas', 'IdentifyGenConf', 'IdentifyGenIM', 'IdentifyGenConfProofs', 'IdentifyGenIMProofs', 'InstrumentsGen', 'SFIdentify', 'Extracted', 'SourceFacts', 'Base', 'Digraph', 'DigraphProofs', 'Identify', 'IdentifyProofs', 'DSep', 'DSepProofs', 'CorrDag']
 
 WORKER = r'''
 import sys, json, logging
